@@ -21,224 +21,59 @@ def _prop_at(case):
     return None
 
 
-def _desc_of(case):
-    c = case["call"]
-    if c["trap"] == "getOwnPropertyDescriptor" and c.get("rkind") == "desc":
-        return c.get("rdesc") or {}
-    if c["trap"] == "defineProperty" and c.get("rb"):
-        return c.get("desc") or {}
-    return None
+def _gonil(case, trap):
+    return _lat(case) and case.get("mode") == "go" and case["call"].get("trap") == trap and case["call"].get("rkind") == "gonil"
 
 
-def _is_acc(d):
-    return "get" in d or "set" in d
+def pred_go_ownkeys_nil(case, rec, exp):
+    """Go ProxyTrapConfig.OwnKeys returning nil: nil pointer dereference escapes as a host panic"""
+    return _gonil(case, "ownKeys") and rec.get("obs", "").startswith("HOSTPANIC") and "nil pointer" in rec.get("obs", "")
 
 
-def _is_data(d):
-    return "value" in d or "writable" in d
+def pred_go_construct_nil(case, rec, exp):
+    """Go ProxyTrapConfig.Construct returning nil: `new proxy()` yields a nil object instead of TypeError"""
+    return _gonil(case, "construct") and '"obj":99' in rec.get("obs", "")
 
 
-def _threw(rec):
-    return '"err":"TypeError"' in rec.get("obs", "")
-
-
-def _exp_ok(exp, want_spec_typeerror):
-    """exp is the printed `ELat spec goja impl_is_goja` (None while pre-classifying).  The finding is the
-    recorded one only if the implementation still behaves as the transcribed goja algorithm."""
-    if exp is None:
-        return True
-    m = re.search(r"ELat\s+(\(.*\)|RTypeError)\s+(\(.*\)|RTypeError)\s+(true|false)", exp, re.S)
-    if not m or m.group(3) != "true":
-        return False
-    spec_te = m.group(1).strip() == "RTypeError"
-    return want_spec_typeerror is None or spec_te == want_spec_typeerror
-
-
-def pred_undef_accessor(case, rec, exp):
-    """getOwnPropertyDescriptor trap returned an accessor descriptor whose get and set are both undefined:
-    the proxy reports a DATA descriptor {value: undefined, writable: false}."""
-    if not _lat(case):
-        return False
-    c = case["call"]
-    d = _desc_of(case)
-    if c["trap"] != "getOwnPropertyDescriptor" or d is None or not _is_acc(d) or _is_data(d):
-        return False
-    if d.get("get", 0) != 0 or d.get("set", 0) != 0:
-        return False
-    return '"acc":false' in rec.get("obs", "") and _exp_ok(exp, None)
-
-
-def _hist_diff(case, rec):
-    """(op at the first difference, direct result, direct log, proxied result, proxied log) of a history case"""
-    m = re.search(r"^DIFF: first difference at op (\d+): direct=(.*?) proxied=(.*)$", rec.get("obs", ""), re.S)
+def pred_setproto_msg(case, rec, exp):
+    """a failing Object.setPrototypeOf / Reflect.setPrototypeOf-throwing path stringifies the object for its message and
+    runs user getters: both sides TypeError, only the getter events differ"""
+    m = re.search(r"^DIFF: first difference at op (\d+): direct=setproto:TypeError\|([^ ]*) proxied=setproto:TypeError\|([^ ]*)$",
+                  rec.get("obs", ""))
     if not (isinstance(case, dict) and case.get("kind") == "hist" and m):
-        return None
+        return False
     i = int(m.group(1))
     ops = case.get("ops", [])
-    if i >= len(ops):
-        return None
-    d, p = m.group(2), m.group(3)
-    if "|" not in d or "|" not in p:
-        return None
-    dr, dl = d.rsplit("|", 1)
-    pr, pl = p.rsplit("|", 1)
-    return ops[i], dr, dl, pr, pl, ops[:i]
-
-
-def pred_stale_writable(case, rec, exp):
-    """direct object: [[Set]] on an own getter-only accessor that was converted from a data property by defineProperty
-    reports success (Reflect.set true, strict assignment does not throw, with a foreign receiver the property is even
-    created there); through the forwarding proxy it fails (false / TypeError) as the spec says."""
-    h = _hist_diff(case, rec)
-    if not h:
+    if i >= len(ops) or ops[i].get("o") != "setproto":
         return False
-    op, dr, dl, pr, pl, before = h
-    if op.get("o") != "set":
-        return False
-    conv = any(o.get("o") == "define" and o.get("k", 0) == op.get("k", 0) and o.get("d") and "get" in o["d"] and
-               not o["d"].get("set") for o in before)
-    return conv and (dr.startswith("set:T") or dr == "set:ok") and pr in ("set:F", "set:TypeError")
-
-
-def pred_stale_getter(case, rec, exp):
-    """direct object: defineProperty {writable: ...} without value on a configurable accessor turns the descriptor into a
-    data descriptor but reads still invoke the old getter; the proxy (which trusts the descriptor) then differs."""
-    h = _hist_diff(case, rec)
-    if not h:
-        return False
-    op, dr, dl, pr, pl, before = h
-    if op.get("o") not in ("get", "keys", "set"):
-        return False
-    same_key = lambda o: op.get("o") == "keys" or o.get("k", 0) == op.get("k", 0)
-    conv = any(o.get("o") == "define" and same_key(o) and o.get("d") and "writable" in o["d"] and
-               not any(f in o["d"] for f in ("value", "get", "set")) for o in before)
-    return conv and "get@" in dl
-
-
-def pred_keys_drop_index(case, rec, exp):
-    """arguments object: a mapped index redefined non-enumerable is still listed by Object.keys/entries/for-in on the
-    object itself; the proxy (which filters by getOwnPropertyDescriptor) omits it as the spec says."""
-    h = _hist_diff(case, rec)
-    if not h:
-        return False
-    op, dr, dl, pr, pl, before = h
-    if op.get("o") != "keys" or case.get("target") != "arguments" or not dr.startswith("keys:[") or not pr.startswith("keys:["):
-        return False
-    dk = re.findall(r'"((?:[^"\\\\]|\\\\.)*)"', dr)
-    pk = re.findall(r'"((?:[^"\\\\]|\\\\.)*)"', pr)
-    missing = [x for x in dk if x not in pk]
-    return len(dk) == len(pk) + len(missing) and 1 <= len(missing) <= 2 and all(re.match(r"^[01](\\?=|$)", x) for x in missing)
-
-
-def pred_frozen_arguments(case, rec, exp):
-    """Object.isSealed/isFrozen on a sealed/frozen arguments object answer false on the object itself (mapped arguments are
-    not valueProperty values in the type switch); through the proxy the answer is true as the spec says."""
-    h = _hist_diff(case, rec)
-    if not h:
-        return False
-    op, dr, dl, pr, pl, before = h
-    return op.get("o") == "isext" and case.get("target") == "arguments" and dr == "isext:F" and pr == "isext:T"
-
-
-def pred_error_path_getter(case, rec, exp):
-    """a failing delete / setPrototypeOf / ... builds its TypeError message (even when it then only returns false) by
-    stringifying the object or the property value, which runs user getters; target and proxy agree on the result and
-    differ only in these spurious getter calls."""
-    h = _hist_diff(case, rec)
-    if not h:
-        return False
-    op, dr, dl, pr, pl, before = h
-    if dr != pr or not (dr.endswith(":TypeError") or dr.endswith(":F")) or op.get("o") not in ("delete", "setproto", "prevext", "define", "set"):
-        return False
-    ents = [e for e in dl.split(",") if e]
-    return dl != pl and len(ents) > 0 and all(e.startswith("get@") for e in ents) and all(e.startswith("get@") for e in pl.split(",") if e)
-
-
-def pred_length_rangeerror(case, rec, exp):
-    """array whose length is non-writable (frozen): assigning an invalid length throws RangeError on the array itself (the
-    value is validated before writability); spec and the proxy path: false / TypeError in strict code."""
-    h = _hist_diff(case, rec)
-    if not h:
-        return False
-    op, dr, dl, pr, pl, before = h
-    return op.get("o") == "set" and op.get("k", 0) == 2 and case.get("target") == "array" and dr == "set:RangeError" and \
-        pr in ("set:F", "set:TypeError", "set:0")
-
-
-def pred_stale_writable_model(case, rec, exp):
-    """model history: data -> accessor -> data (value given, writable not given) on one key: the property ends up
-    writable:true (stale flag of its first data incarnation), the spec and the model say writable:false."""
-    if not (isinstance(case, dict) and case.get("kind") == "model"):
-        return False
-    m = re.search(r"^final=(\{.*?\}) all=", rec.get("obs", ""))
-    if not m:
-        return False
-    try:
-        fin = json.loads(m.group(1))
-    except ValueError:
-        return False
-    for p in fin.get("props", []):
-        d = p.get("d") or {}
-        if d.get("acc") or not d.get("w"):
-            continue
-        defs = [o for o in case.get("ops", []) if o.get("o") == "define" and o.get("k", 0) == p.get("k") and o.get("d")]
-        acc_seen = False
-        for o in defs:
-            dd = o["d"]
-            if "get" in dd or "set" in dd:
-                if "value" not in dd and "writable" not in dd:
-                    acc_seen = True
-            elif acc_seen and "value" in dd and "writable" not in dd:
-                return True
-    return False
+    dl = [e for e in m.group(2).split(",") if e]
+    pl = [e for e in m.group(3).split(",") if e]
+    return dl != pl and len(dl) > 0 and all(e.startswith("get@") for e in dl + pl)
 
 
 PREDICATES = {
-    "C11.data_accessor_data_keeps_writable": pred_stale_writable_model,
-    "C11.gopd_undefined_accessor_reported_as_data": pred_undef_accessor,
-    "C11.getter_only_set_reports_success": pred_stale_writable,
-    "C11.accessor_to_data_keeps_getter": pred_stale_getter,
-    "C11.arguments_enumeration_ignores_enumerable": pred_keys_drop_index,
-    "C11.issealed_false_on_sealed_arguments": pred_frozen_arguments,
-    "C11.error_path_calls_getter": pred_error_path_getter,
-    "C11.array_length_rangeerror_before_writable": pred_length_rangeerror,
+    "C11.setprototypeof_failure_calls_getter": pred_setproto_msg,
+    "C11.go_ownkeys_nil_panics_host": pred_go_ownkeys_nil,
+    "C11.go_construct_nil_leaks_nil_object": pred_go_construct_nil,
 }
 
 
 # ------------------------------------------------------------------------------------------------
 # the exhaustive lattice stage
 
-def _impl_is_I(ctx, recs):
-    """ask the model, in one coqc run, which observations coincide with the goja-shaped model I"""
-    path = os.path.join(ctx.work, "cls.v")
-    with open(path, "w") as f:
-        f.write("From Coq Require Import List ZArith NArith String Ascii.\nImport ListNotations.\n")
-        f.write("Require Import Verif.C11.Run.\nSet Printing Width 1000000. Set Printing Depth 1000000.\n")
-        f.write("Definition cases : list tcase := [\n" + ";\n".join("(" + r["coq"] + ")" for r in recs) + "\n].\n")
-        f.write("Definition B := Eval vm_compute in map impl_is_I cases.\nPrint B.\n")
-    rc, out = vcheck.sh(["coqc", "-Q", vcheck.COQ, "Verif", "-o", os.path.join(ctx.work, "cls.vo"), path], timeout=900)
-    m = re.search(r"B\s*=\s*(\[.*?\])\s*:\s*list bool", out, re.S)
-    if rc != 0 or not m:
-        return [False] * len(recs)
-    flags = [x == "true" for x in re.findall(r"\b(true|false)\b", m.group(1))]
-    return flags if len(flags) == len(recs) else [False] * len(recs)
-
-
 def preclassify(ctx, recs, bad):
-    """impl <> S on these.  Those with impl = I inside the region of an open finding are instances of that
-    finding: keep one representative per finding (reported by the generic handler), everything else first."""
+    """impl <> S on these.  Those recognised by the narrow predicate of an open finding are instances of it: keep one
+    representative per finding (reported by the generic handler), everything unexplained first."""
     known = [k for k in vcheck.load_known()["open"] if k["property"] == ctx.pid]
-    sub = [recs[i] for i in bad]
-    flags = _impl_is_I(ctx, sub)
     rest, reps, counts = [], {}, {}
-    for i, (r, f) in zip(bad, zip(sub, flags)):
+    for i in bad:
+        r = recs[i]
         fid = None
-        if f:
-            for k in known:
-                fn = PREDICATES.get(k["predicate"])
-                if fn and fn(r["case"], r, None):
-                    fid = k["id"]
-                    break
+        for k in known:
+            fn = PREDICATES.get(k["predicate"])
+            if fn and fn(r["case"], r, None):
+                fid = k["id"]
+                break
         if fid is None:
             rest.append(i)
         else:
@@ -288,7 +123,7 @@ def lattice_stage(ctx):
     counts = {}
     if bad:
         order, counts = preclassify(ctx, recs, bad)
-        ctx.log("lattice: cells inside open findings (impl = goja model I): %s; unexplained: %d" % (
+        ctx.log("lattice: cells inside open findings: %s; unexplained: %d" % (
             counts, len(bad) - sum(counts.values())))
         vcheck.handle_mismatches(ctx, binp, recs, order, "lattice")
     # merge into the coverage summary written by the history stage
